@@ -24,15 +24,19 @@ abbrev Flt := GoSem.F64
 
 /-! ### reading a decimal text -/
 
-/-- sign, all digits as one number, number of fraction digits; `none` unless `[+-]? digit* ('.' digit*)?` with at
-    least one digit -/
+/-- what follows the sign: all digits as one number, number of fraction digits; `none` unless
+    `digit* ('.' digit*)?` with at least one digit -/
+def parseDecBody (neg : Bool) (body : Str) : Option (Bool × Nat × Nat) :=
+  let ds := (splitDot body).1 ++ ((splitDot body).2.getD [])
+  if ds = [] ∨ ds.all isDigit = false then none
+  else some (neg, parseDigits ds, ((splitDot body).2.getD []).length)
+
+/-- sign, digits, scale of `[+-]? digit* ('.' digit*)?` -/
 def parseDec? (t : Str) : Option (Bool × Nat × Nat) :=
-  let neg := match t with | 45 :: _ => true | _ => false
-  let body := match t with | 45 :: r => r | 43 :: r => r | _ => t
-  let p := splitDot body
-  let fp := match p.2 with | some f => f | none => []
-  if (p.1 ++ fp) = [] ∨ (p.1 ++ fp).all isDigit = false then none
-  else some (neg, parseDigits (p.1 ++ fp), fp.length)
+  match t with
+  | 45 :: r => parseDecBody true r
+  | 43 :: r => parseDecBody false r
+  | _ => parseDecBody false t
 
 /-- the float of the target width nearest to ±N/10^k -/
 def nearestDec (bits : Nat) (neg : Bool) (N k : Nat) : Flt :=
@@ -90,12 +94,17 @@ def candidates (neg : Bool) (A B : Nat) (nd : Nat) : List Str :=
   else if 2 * r < den ∨ (2 * r = den ∧ q % 2 = 0) then [renderDec neg q k, renderDec neg (q + 1) k]
   else [renderDec neg (q + 1) k, renderDec neg q k]
 
-def shortestSearch (bits : Nat) (x : Flt) (neg : Bool) (A B : Nat) : Nat → Nat → Str
+/-- the first candidate accepted by `ok`, trying `cand nd`, `cand (nd+1)`, … (`fuel` lengths) -/
+def firstAccepted (cand : Nat → List Str) (ok : Str → Bool) : Nat → Nat → Str
   | 0, _ => []
   | fuel+1, nd =>
-    match (candidates neg A B nd).find? (fun t => parseFloatGo bits t == x) with
+    match (cand nd).find? ok with
     | some t => t
-    | none => shortestSearch bits x neg A B fuel (nd + 1)
+    | none => firstAccepted cand ok fuel (nd + 1)
+
+/-- the first text with 1, 2, … significant digits that parses back to `x` -/
+def shortestSearch (bits : Nat) (x : Flt) (neg : Bool) (A B : Nat) (fuel nd : Nat) : Str :=
+  firstAccepted (candidates neg A B) (fun t => parseFloatGo bits t == x) fuel nd
 
 /-- `strconv.FormatFloat(x, 'f', -1, bits)` -/
 def formatFloatGo (bits : Nat) : Flt → Str
